@@ -14,19 +14,29 @@ from mc.canon import canon
 from mc import families as F
 from mc.surf_oracle import SurfOracle, rot_equal
 from mc.cache_explore import Ev as _Ev, explore, tup
+from mc import c01_forms as C1F
 
 ID = "C01"
 TECHNIQUE = "explicit-state BFS over accessor-call histories (cache states) of real SurfaceMesh objects, for every mesh of bounded-exhaustive families, vs an independent half-edge oracle"
 RULE = ("inputs: every labelled oriented manifold complex of SURF (see bounds) + ZOO specimens, x sort_neighborhoods "
         "in {True,False}; per input the accessor transition system is explored to a fixed point (state = canonical "
         "dump of all lazy caches); a case = one distinct (mesh, config, cache state); non-trivial = mesh has an "
-        "interior edge or a border")
+        "interior edge or a border. Input-form deviations (each run through the same BFS, judged by the same oracle): "
+        "explicit edge list / isolated vertex (round 3); round 5 (mc/c01_forms.py): INDEX DTYPE - the face rows are numpy "
+        "arrays of int8/uint8/int16/uint16/int32/uint32/int64/uint64 (from_arrays for one arity, RawMeshData rows otherwise), "
+        "on the whole base family, on medium specimens (20-25 vertices) and on the large specimens (180 / 320 vertices), "
+        "so that packed pairs / products of two ids leave the range of every narrow dtype; COLLIDING "
+        "ATTRIBUTE NAMES - all four element containers carry user attributes under the 24 names the library uses itself "
+        "(attributes it creates + its lazy field names) in 5 storage/content kinds (sparse/dense all-True, explicit False, "
+        "int, planted on the raw data before construction), also crossed with config.display_duplicate_attribute_warning")
 ASSUMPTIONS = ["inputs are oriented manifold polygon complexes within the size bounds; larger meshes only through the ZOO specimens",
                "the rotational direction of rings is pinned to the library's documented (clockwise) convention as observed on the pinned tree: p(f_{i+1}) = n(f_i)",
-               "edge ids are taken from mesh.edges (construction is C02's subject)"]
+               "edge ids are taken from mesh.edges (construction is C02's subject)",
+               "index dtypes: a dtype is applied to a mesh iff n_vertices-1 fits; wrap-around of the packed pair (n-1)*n+(n-1) is reached for int8/uint8 (n>=17), int16 (n=320), uint16 (n=320); int32 would need n>=46341 vertices, uint32 n>=65537 (beyond the memory of a pool worker) and 64-bit dtypes cannot wrap at mesh sizes: for these dtypes only the type of the ids is varied, not their magnitude",
+               "colliding attribute names: the name alphabet is pinned in mc/c01_forms.py (grep of create_attribute in the pinned tree + lazy field names); names the container already carries after construction (hard_edges) are left alone; user attributes are not part of the face list, so no clause is relaxed under the deviation"]
 BOUNDS = {
-    "quick": "SURF triangles n<=5 all labelled (434), triangles+quads n=4 all labelled, n=5 (<=4 faces) one per isomorphism class, pentagon and triangle+pentagon complexes on 5 vertices, SURF(6) triangle isomorphism classes (28); face-listing deviations (rotated start vertex / swapped faces) <=2 on n=3, <=1 on n=4; ZOO; cache-state BFS to the fixed point on n<=4, over all histories of <= 3 events otherwise",
-    "thorough": "all labelled SURF: triangles n<=6 (13368), triangles+quads n=5 <=5 faces, pentagons; face-listing deviations <=2 on n<=4 and <=1 on n=5 triangles; larger ZOO; cache-state BFS to the fixed point except on the labelled 6-vertex family (histories of <= 2 events)",
+    "quick": "SURF triangles n<=5 all labelled (434), triangles+quads n=4 all labelled, n=5 (<=4 faces) one per isomorphism class, pentagon and triangle+pentagon complexes on 5 vertices, SURF(6) triangle isomorphism classes (28); face-listing deviations (rotated start vertex / swapped faces) <=2 on n=3, <=1 on n=4; ZOO; cache-state BFS to the fixed point on n<=4, over all histories of <= 3 events otherwise; round-5 forms at depth 1: base family (~600 meshes in batches of 40): even batches 2h under dtype DTYPES[h mod 8], odd batches 2h+1 under kind KINDS[h mod 5] (sort value alternating with h), 4 medium specimens under all 8 dtypes and all 5 kinds (kinds also with the duplicate-attribute switch on), large specimens under uint8 (180 vertices) and int16/uint16 (320 vertices)",
+    "thorough": "all labelled SURF: triangles n<=6 (13368), triangles+quads n=5 <=5 faces, pentagons; face-listing deviations <=2 on n<=4 and <=1 on n=5 triangles; larger ZOO; cache-state BFS to the fixed point except on the labelled 6-vertex family (histories of <= 2 events); round-5 forms (histories of <= 1 event): every batch b of the base family x all 8 index dtypes d x all 5 colliding-name kinds k, sort on iff b+d / b+k even (kinds true and raw_true also with the duplicate-attribute switch on), medium and large specimens under every dtype that fits",
 }
 
 BATCH = 20
@@ -144,6 +154,69 @@ def tasks(tier):
         for form in ("edges_desc", "edges_desc_invalid", "isolated:first", "isolated:middle", "isolated:last"):
             for i in range(0, len(base), 2 * BATCH):
                 out.append({"sort": sort, "depth": dform, "form": form, "meshes": base[i:i + 2 * BATCH]})
+    out += _round5_tasks(tier, base, dform)
+    return out
+
+
+def _medium():
+    """specimens with 17 <= n <= 127 vertices: ids fit every dtype, packed pairs / products of two ids leave the
+    int8 and uint8 ranges (pentagons, triangles, mixed arities, closed genus 1, bordered)"""
+    out = []
+    for name, (p, f) in (("dodecahedron", F.dodecahedron()), ("grid5x5tri", F.grid(5, 5, "tri")), ("grid4x6mixed", F.grid(4, 6, "mixed")),
+                         ("torus4x5", F.torus_grid(4, 5))):
+        out.append((name, len(p), [list(x) for x in f]))
+    return out
+
+
+BIG = {"torus12x15": 180, "cylinder20x16": 320}     # name -> number of vertices
+
+
+def _round5_tasks(tier, base, dform):
+    """Round-5 dimensions (mc/c01_forms.py): index dtype of the face rows, colliding attribute names.
+    All at depth 1 (every accessor on its whole domain in the fresh state and as first query; the forms act at
+    construction, the deeper histories are explored on the plain family).
+    thorough: every batch b of the base family under EVERY dtype number d and EVERY kind number k, with sort on iff
+    b+d (b+k) is even; the medium and the large specimens under every dtype that fits and every kind with both sort
+    values. (Packed id pairs leave the 32-bit ranges only from 46341 vertices on: a 46656-vertex torus was tried and
+    needs more memory than a pool worker has; the bound is stated in ASSUMPTIONS.)
+    quick (rotation, no draw): the even batches b = 2h run under dtype DTYPES[h mod 8], the odd batches b = 2h+1 under
+    kind KINDS[h mod 5], the sort value alternating with h; the medium specimens under every dtype and every kind with the
+    other sort value than the batches of that dtype / kind; the large specimens under the dtypes that fit and whose range their packed id pairs
+    leave (signed: sort on, unsigned: sort off)."""
+    out = []
+    nb = 2 * BATCH
+    batches = [base[i:i + nb] for i in range(0, len(base), nb)]
+    nd, nk = len(C1F.DTYPES), len(C1F.KINDS)
+    med = _medium()
+    quick = tier == "quick"
+    for sort in (True, False):
+        for bi, grp in enumerate(batches):
+            h = bi // 2
+            for di, dt in enumerate(C1F.DTYPES):
+                if not quick:
+                    if sort == ((bi + di) % 2 == 0):
+                        out.append({"sort": sort, "depth": 1, "form": "dtype:" + dt, "meshes": grp})
+                elif bi % 2 == 0 and di == h % nd and sort == (h % 2 == 0):
+                    out.append({"sort": sort, "depth": dform, "form": "dtype:" + dt, "meshes": grp})
+            for ki, kd in enumerate(C1F.KINDS):
+                if not quick:
+                    if sort == ((bi + ki) % 2 == 0):
+                        out.append({"sort": sort, "depth": 1, "form": "collide:" + kd, "meshes": grp})
+                elif bi % 2 == 1 and ki == h % nk and sort == (h % 2 == 1):
+                    out.append({"sort": sort, "depth": dform, "form": "collide:" + kd, "meshes": grp})
+        for di, dt in enumerate(C1F.DTYPES):
+            if not quick or sort == (di % 2 == 1):
+                out.append({"sort": sort, "depth": 1, "form": "dtype:" + dt, "meshes": [x for x in med if C1F.fits(dt, x[1])], "medium": True})
+        for ki, kd in enumerate(C1F.KINDS):
+            if not quick or sort == (ki % 2 == 0):
+                out.append({"sort": sort, "depth": 1, "form": "collide:" + kd, "meshes": med, "medium": True})
+        for big in ("torus12x15", "cylinder20x16"):
+            for dt in C1F.DTYPES:
+                if not C1F.fits(dt, BIG[big]):
+                    continue
+                if quick and not (C1F.wraps(dt, BIG[big]) and (dt.startswith("u") == (not sort))):
+                    continue
+                out.append({"sort": sort, "depth": 1, "big": big, "form": "dtype:" + dt})
     return out
 
 
@@ -345,13 +418,29 @@ def _build(M, n, faces):
         if form == "edges_desc_invalid":
             edges = [(1, 1)] + edges[:1] + [(n + 2, 0)] + edges[1:]
         return F.build_surface(pts, faces, edges=edges)
+    if form is not None and form.startswith("dtype:"):
+        return C1F.build_index_dtype(M, pts, faces, form.split(":")[1])
+    if form is not None and form.startswith("collide:"):
+        return C1F.build_colliding(M, pts, faces, form.split(":")[1], F.build_surface)[0]
     return F.build_surface(pts, faces)
 
 
 def _input_class(o, sort, warm):
     ar = "+".join(str(k) for k in sorted(set(len(f) for f in o.F)))
     closed = not F.border_half_edges(o.F)
-    form = "" if FORM[0] is None else (":isolated_vertex" if FORM[0].startswith("isolated") else ":explicit_edge_list")
+    fm = FORM[0]
+    if fm is None:
+        form = ""
+    elif fm.startswith("isolated"):
+        form = ":isolated_vertex"
+    elif fm.startswith("dtype:"):
+        # coarse: narrow (< 64 bit) or wide, signed or unsigned - not the dtype itself
+        form = ":index_rows_numpy_" + ("wide" if fm.endswith("64") else "narrow") + ("_unsigned" if fm.split(":")[1].startswith("u") else "_signed")
+    elif fm.startswith("collide:"):
+        # a name collision does not depend on arity, closedness, sorting or cache state: one class for the whole family
+        return "surface:colliding_attribute_names"
+    else:
+        form = ":explicit_edge_list"
     return f"arity{ar}:{'closed' if closed else 'bordered'}:sort={sort}:{'warm' if warm else 'fresh'}" + form
 
 
@@ -435,25 +524,66 @@ def flip_scenario(M, name, n, faces, sort, rep: Report, events):
         M.config.sort_neighborhoods = sort
 
 
+def _big_specimen(name):
+    if name == "torus12x15":
+        return F.torus_grid(12, 15)
+    if name == "cylinder20x16":
+        return F.cylinder_quads(20, 16)
+    raise ValueError(name)
+
+
+def _form_facts(M, name, n, faces, form, rep: Report, events):
+    """Vacuity facts of the round-5 forms, established on one object outside the BFS: the ids stored in the mesh
+    really are numpy scalars of the requested dtype / the planted attributes really are there, and which of the
+    planted names the library itself writes to when every accessor is called once (the names that DO collide)."""
+    m = _build(M, n, faces)
+    if form.startswith("dtype:"):
+        dt = form.split(":")[1]
+        if C1F.index_dtype_really_kept(m, dt):
+            rep.flag("index_dtype_kept:" + dt)
+        if C1F.wraps(dt, n):
+            rep.flag("index_dtype_products_wrap:" + dt)
+        return
+    kind = form.split(":")[1]
+    m, planted = C1F.build_colliding(M, F.moment_curve(n), faces, kind, F.build_surface)
+    if planted and all(getattr(m, cn).has_attribute(nm) and getattr(m, cn).get_attribute(nm) is a for (cn, nm), a in planted.items()):
+        rep.flag("collide_planted:" + kind)
+    before = C1F.snapshot(planted)
+    o = SurfOracle(faces, n, [tuple(e) for e in m.edges])
+    for ev in events:
+        d = list(ev.domain(o))
+        if d:
+            call(ev.fn, m, *d[0])
+    for h in C1F.collisions_hit(m, planted, before):
+        rep.flag("collision_hit:" + h)
+
+
 def run_task(task, rep: Report):
     import mouette as M
     old = M.config.sort_neighborhoods
     M.config.sort_neighborhoods = bool(task["sort"])
     try:
+        FORM[0] = task.get("form")
         if "big" in task:
-            pts, faces = F.torus_grid(12, 15) if task["big"].startswith("torus") else F.cylinder_quads(20, 16)
+            pts, faces = _big_specimen(task["big"])
             faces = [tuple(f) for f in faces]
-            explore_mesh(M, task["big"], len(pts), faces, bool(task["sort"]), rep, _events(bool(task["sort"]), big=True), task.get("depth"), big=True)
+            events = _events(bool(task["sort"]), big=True)
+            explore_mesh(M, task["big"] + (":" + FORM[0] if FORM[0] else ""), len(pts), faces, bool(task["sort"]), rep, events,
+                         task.get("depth"), big=True)
+            if FORM[0] is not None:
+                _form_facts(M, task["big"], len(pts), faces, FORM[0], rep, events)
+                rep.flag("form:" + FORM[0]); rep.flag("big_form:" + FORM[0])
             return
         events = _events(bool(task["sort"]))
-        FORM[0] = task.get("form")
-        for name, n, faces in task["meshes"]:
+        for k, (name, n, faces) in enumerate(task["meshes"]):
             faces = [tuple(f) for f in faces]
             if FORM[0] is not None:
                 if FORM[0].startswith("isolated"):
                     n, faces, _ = _with_isolated(n, faces, FORM[0].split(":")[1])
                 explore_mesh(M, name + ":" + FORM[0], n, faces, bool(task["sort"]), rep, events, task.get("depth"))
                 rep.flag("form:" + FORM[0])
+                if FORM[0].startswith(("dtype:", "collide:")) and (k == 0 or task.get("medium")):
+                    _form_facts(M, name, n, faces, FORM[0], rep, events)
                 continue
             explore_mesh(M, name, n, faces, bool(task["sort"]), rep, events, task.get("depth"))
             if task.get("depth") is None:
@@ -476,10 +606,37 @@ def finish(tier, rep: Report):
             fails.append("input-form deviation not exercised: " + form)
     if rep.counters.get("premise_failed"):
         fails.append("oracle premise failed on some meshes (mesh.edges != face sides)")
+    # round-5 forms: every dtype / kind really run, the ids really stored in that dtype, the attributes really planted,
+    # packed id pairs really beyond the range of every narrow dtype, at least one planted name really used by the library
+    for dt in C1F.DTYPES:
+        for fl in ("form:dtype:" + dt, "index_dtype_kept:" + dt):
+            if fl not in rep.flags:
+                fails.append("index-dtype form not exercised: " + fl)
+    for dt in ("int8", "uint8", "int16", "uint16"):
+        if "index_dtype_products_wrap:" + dt not in rep.flags:
+            fails.append("no specimen whose packed id pairs leave the range of " + dt)
+    if not any(f.startswith("big_form:dtype:") for f in rep.flags):
+        fails.append("no large specimen under a narrow index dtype")
+    for kd in C1F.KINDS:
+        for fl in ("form:collide:" + kd, "collide_planted:" + kd):
+            if fl not in rep.flags:
+                fails.append("colliding-attribute form not exercised: " + fl)
+    if not any(f.startswith("collision_hit:") for f in rep.flags):
+        fails.append("none of the planted attribute names is used by the library itself (the collision family is vacuous)")
     return fails
+
+
+# The crossing "colliding attribute names x config.display_duplicate_attribute_warning = True" reports a defect of the
+# pinned tree (SurfaceMesh._compute_interior_boundary_vertices trusts create_attribute("border") to be empty; handed
+# over with reproducer and patch). False switches the crossing off, nothing else.
+COLLIDE_X_DUPFLAG = True
 
 
 def dupflag_variant(task, tier):
     """Tasks that are also run with config.display_duplicate_attribute_warning = True (the runner appends
     ':duplicate_attribute_flag' to the input class of anything found there)."""
+    if str(task.get("form") or "").startswith("collide:"):
+        # configuration x colliding names: the medium specimens (every kind); thorough also the base family under the
+        # kinds true / raw_true
+        return COLLIDE_X_DUPFLAG and (bool(task.get("medium")) or (tier != "quick" and task["form"] in ("collide:true", "collide:raw_true")))
     return bool(task.get("depth") is None and len(task.get("meshes", [])) > 1)
